@@ -81,6 +81,8 @@ pub trait Prop {
   fn assumptions() -> Vec<String> { vec![] }
   fn exhaustive_note(_tier: Tier) -> Option<String> { None }
   fn rlimit_as_mb() -> u64 { 6144 }
+  /// stack of the thread that runs the cases (large by default so that debug-build frame sizes do not masquerade as defects)
+  fn stack_mb() -> usize { 1024 }
 }
 
 // ------------------------------------------------------------------------------------------
@@ -150,6 +152,8 @@ pub struct WorkerArgs {
   pub skip_fixed: u32,
   pub skip_rand: u32,
   pub replays: Vec<String>, // files (only given to worker 0)
+  pub skip_replays: u32,
+  pub skip_pins: u32,
 }
 
 fn emit(out: &mut impl Write, v: &J, flush: bool) {
@@ -182,7 +186,7 @@ fn verdict_json(i: u64, phase: &str, v: &Verdict, known: &Known, desc: Option<St
 pub fn worker_main<P: Prop>(a: WorkerArgs) {
   crate::mech::install_quiet_panic_hook();
   set_rlimit_as(P::rlimit_as_mb());
-  let child = std::thread::Builder::new().stack_size(1 << 30).spawn(move || worker_body::<P>(a)).expect("spawn");
+  let child = std::thread::Builder::new().stack_size(P::stack_mb() << 20).spawn(move || worker_body::<P>(a)).expect("spawn");
   let _ = child.join();
 }
 
@@ -205,6 +209,7 @@ fn worker_body<P: Prop>(a: WorkerArgs) {
 
   // phase R: committed replays and known-finding pins (worker 0 only)
   for (ri, path) in a.replays.iter().enumerate() {
+    if (ri as u32) < a.skip_replays { continue; }
     let Ok(txt) = std::fs::read_to_string(path) else { continue };
     let Ok(j) = serde_json::from_str::<J>(&txt) else { continue };
     let Ok(case) = serde_json::from_value::<P::Case>(j["case"].clone()) else {
@@ -220,6 +225,7 @@ fn worker_body<P: Prop>(a: WorkerArgs) {
   // known-finding pins
   if a.index == 0 {
     for (ki, e) in known.entries.iter().enumerate() {
+      if (ki as u32) < a.skip_pins { continue; }
       if e.status != "known" { continue; }
       let Some(ex) = &e.example else { continue };
       let Ok(case) = serde_json::from_value::<P::Case>(ex.clone()) else {
@@ -324,16 +330,19 @@ struct WState {
   gen: u32, // respawn generation
   next_fixed: u32,
   next_rand: u32,
+  next_replay: u32,
+  next_pin: u32,
 }
 
 enum Msg { Line(usize, u32, String), Eof(usize, u32) }
 
-fn spawn_worker(id: &str, tier: Tier, seed: u64, index: u32, of: u32, skip_fixed: u32, skip_rand: u32, replays: &[String], tx: &mpsc::Sender<Msg>, gen: u32) -> Child {
+fn spawn_worker(id: &str, tier: Tier, seed: u64, index: u32, of: u32, skip_fixed: u32, skip_rand: u32, replays: &[String], tx: &mpsc::Sender<Msg>, gen: u32, skip_replays: u32, skip_pins: u32) -> Child {
   let exe = std::env::current_exe().expect("exe");
   let mut cmd = Command::new(exe);
   cmd.arg("worker").arg(id).arg("--tier").arg(tier.name()).arg("--seed").arg(seed.to_string())
     .arg("--index").arg(index.to_string()).arg("--of").arg(of.to_string())
-    .arg("--skip-fixed").arg(skip_fixed.to_string()).arg("--skip-rand").arg(skip_rand.to_string());
+    .arg("--skip-fixed").arg(skip_fixed.to_string()).arg("--skip-rand").arg(skip_rand.to_string())
+    .arg("--skip-replays").arg(skip_replays.to_string()).arg("--skip-pins").arg(skip_pins.to_string());
   for r in replays { cmd.arg("--replay-file").arg(r); }
   cmd.stdin(Stdio::null()).stdout(Stdio::piped()).stderr(Stdio::null());
   let mut child = cmd.spawn().expect("spawn worker");
@@ -383,19 +392,20 @@ pub fn supervisor_main<P: Prop>(o: RunOpts) -> i32 {
   let mut ws: Vec<WState> = vec![];
   for i in 0..of {
     let r: &[String] = if i == 0 { &replays } else { &[] };
-    let child = spawn_worker(id, o.tier, o.seed, i, of, 0, 0, r, &tx, 0);
-    ws.push(WState { child, last_begin: None, done: false, gen: 0, next_fixed: 0, next_rand: 0 });
+    let child = spawn_worker(id, o.tier, o.seed, i, of, 0, 0, r, &tx, 0, 0, 0);
+    ws.push(WState { child, last_begin: None, done: false, gen: 0, next_fixed: 0, next_rand: 0, next_replay: 0, next_pin: 0 });
   }
   let mut agg = Agg::default();
   let timeout = Duration::from_millis(P::timeout_ms(o.tier));
   let mut respawns = 0u32;
   let max_respawns = 400;
 
+  let replays_for_respawn = replays.clone();
   let handle_death = |w: &mut WState, agg: &mut Agg, what: &str, widx: usize, tx: &mpsc::Sender<Msg>, respawns: &mut u32| {
     // culprit = last B without E
     let culprit = w.last_begin.take();
     if let Some((_, b)) = culprit {
-      let rec = json!({"what": what, "phase": b["ph"], "i": b["i"], "case": b["case"]});
+      let rec = json!({"what": what, "phase": b["ph"], "i": b["i"], "case": b["case"], "pin": b["pin"]});
       if what == "timeout" { agg.timeouts.push(rec); } else { agg.crashes.push(rec); }
       // advance past the culprit
       let ph = b["ph"].as_str().unwrap_or("G").to_string();
@@ -403,6 +413,8 @@ pub fn supervisor_main<P: Prop>(o: RunOpts) -> i32 {
       match ph.as_str() {
         "X" => { w.next_fixed = i + 1; }
         "G" | "S" => { w.next_rand = i + 1; w.next_fixed = u32::MAX; }
+        "R" => { w.next_replay = i + 1; }
+        "K" => { w.next_pin = i + 1; w.next_replay = u32::MAX; }
         _ => {}
       }
     } else {
@@ -413,7 +425,8 @@ pub fn supervisor_main<P: Prop>(o: RunOpts) -> i32 {
     if *respawns >= max_respawns { w.done = true; agg.harness.push("too many worker respawns".into()); return; }
     *respawns += 1;
     w.gen += 1;
-    w.child = spawn_worker(id, o.tier, o.seed, widx as u32, of, w.next_fixed, w.next_rand, &[], tx, w.gen);
+    let rp: Vec<String> = if widx == 0 { replays_for_respawn.clone() } else { vec![] };
+    w.child = spawn_worker(id, o.tier, o.seed, widx as u32, of, w.next_fixed, w.next_rand, &rp, tx, w.gen, w.next_replay, w.next_pin);
   };
 
   loop {
@@ -471,7 +484,7 @@ pub fn supervisor_main<P: Prop>(o: RunOpts) -> i32 {
           Some(s) => { use std::os::unix::process::ExitStatusExt; if let Some(sig) = s.signal() { format!("signal{}", sig) } else { format!("exit{}", s.code().unwrap_or(-1)) } }
           None => "unknown".into(),
         };
-        let mut w = std::mem::replace(&mut ws[widx], WState { child: Command::new("true").spawn().unwrap(), last_begin: None, done: true, gen: 0, next_fixed: 0, next_rand: 0 });
+        let mut w = std::mem::replace(&mut ws[widx], WState { child: Command::new("true").spawn().unwrap(), last_begin: None, done: true, gen: 0, next_fixed: 0, next_rand: 0, next_replay: 0, next_pin: 0 });
         handle_death(&mut w, &mut agg, &what, widx, &tx, &mut respawns);
         ws[widx] = w;
       }
@@ -485,7 +498,7 @@ pub fn supervisor_main<P: Prop>(o: RunOpts) -> i32 {
       if over {
         let _ = ws[widx].child.kill();
         let _ = ws[widx].child.wait();
-        let mut w = std::mem::replace(&mut ws[widx], WState { child: Command::new("true").spawn().unwrap(), last_begin: None, done: true, gen: 0, next_fixed: 0, next_rand: 0 });
+        let mut w = std::mem::replace(&mut ws[widx], WState { child: Command::new("true").spawn().unwrap(), last_begin: None, done: true, gen: 0, next_fixed: 0, next_rand: 0, next_replay: 0, next_pin: 0 });
         w.gen += 1; // invalidate pending lines from the killed worker
         handle_death(&mut w, &mut agg, "timeout", widx, &tx, &mut respawns);
         ws[widx] = w;
@@ -501,7 +514,7 @@ pub fn supervisor_main<P: Prop>(o: RunOpts) -> i32 {
     match serde_json::from_value::<P::Case>(c["case"].clone()) {
       Ok(case) => {
         let sig = P::crash_sig(&case, &format!("crash:{}", what));
-        if known.find(&sig).is_some() { *agg.known_hits.entry(sig).or_insert(0) += 1; }
+        if known.find(&sig).is_some() { if let Some(pin) = c["pin"].as_str() { agg.pins_ok.push(pin.to_string()); } else { *agg.known_hits.entry(sig).or_insert(0) += 1; } }
         else if P::crash_is_violation() { agg.violations.push((sig, format!("worker process died ({}) while evaluating this case", what), c["case"].clone(), Some(P::describe(&case)), None)); }
         else { exit2_reasons.push(format!("worker died ({}) on a case", what)); }
       }
@@ -512,7 +525,7 @@ pub fn supervisor_main<P: Prop>(o: RunOpts) -> i32 {
   for c in &to_list {
     if let Ok(case) = serde_json::from_value::<P::Case>(c["case"].clone()) {
       let sig = P::crash_sig(&case, "hang");
-      if known.find(&sig).is_some() { *agg.known_hits.entry(sig).or_insert(0) += 1; }
+      if known.find(&sig).is_some() { if let Some(pin) = c["pin"].as_str() { agg.pins_ok.push(pin.to_string()); } else { *agg.known_hits.entry(sig).or_insert(0) += 1; } }
       else if P::timeout_is_violation() { agg.violations.push((sig, format!("case did not finish within {} ms", P::timeout_ms(o.tier)), c["case"].clone(), Some(P::describe(&case)), None)); }
     }
   }
@@ -617,9 +630,10 @@ pub fn replay_main<P: Prop>(path: &str) -> i32 {
   let case: P::Case = serde_json::from_value(j["case"].clone()).expect("case");
   let known = Known::load(P::ID);
   let cx = Cx { tier: Tier::Quick, known: known.clone(), replay: true };
-  let h = std::thread::Builder::new().stack_size(1 << 30).spawn(move || {
-    let v = P::check(&case, &cx);
+  let h = std::thread::Builder::new().stack_size(P::stack_mb() << 20).spawn(move || {
     println!("case: {}", P::describe(&case));
+    { use std::io::Write; let _ = std::io::stdout().flush(); }
+    let v = P::check(&case, &cx);
     match &v.status {
       Status::Fail { sig, msg } => {
         println!("signature: {}\n{}", sig, msg);
